@@ -909,9 +909,9 @@ class UserInformationItem(object):
         :param stream: raw data stream
         :return: decoded user information item
         """
-        _, reserved, _ = cls.header.unpack(stream.read(4))
-        # read the rest of user info
-        user_data = list(cls.sub_items(stream))
+        _, reserved, item_length = cls.header.unpack(stream.read(4))
+        # sub-items are delimited by the item length
+        user_data = list(cls.sub_items(cStringIO(stream.read(item_length))))
         return cls(user_data=user_data, reserved=reserved)
 
     def total_length(self):
